@@ -61,8 +61,22 @@ Theorem algorithm_is_the_headers_and_allowed :
   prepare allow h rawkey = JOk (alg, k) ->
   dict_get "alg" h = Some (PStr alg) /\ registered alg = true /\
   (forall l, allow = Some l -> list_in_str alg l = true) /\
-  prepare_key alg (match rawkey with PNone => match dict_get "jwk" h with Some j => j | None => PNone end | _ => rawkey end) = Some k.
+  prepare_key alg (effective_key h rawkey) = Some k.
 Proof. exact (prepare_sound registered prepare_key). Qed.
+
+(* a key resolver's answer is the key, whatever it is -- never the key the token carries in its own header *)
+Theorem key_resolver_result_is_the_key :
+  forall h r, effective_key h (PList [r]) = r.
+Proof. reflexivity. Qed.
+Print Assumptions key_resolver_result_is_the_key.
+
+Theorem only_an_absent_key_falls_back_to_the_header :
+  forall h rawkey, rawkey <> PNone -> (forall r, rawkey <> PList [r]) -> effective_key h rawkey = rawkey.
+Proof.
+  intros h rawkey H1 H2. destruct rawkey as [| | | | |l|]; try reflexivity; [congruence|].
+  destruct l as [|r [|]]; try reflexivity. exfalso. exact (H2 r eq_refl).
+Qed.
+Print Assumptions only_an_absent_key_falls_back_to_the_header.
 
 (* a JSON JWS is accepted only if EVERY signature verifies, each over its own protected segment and the payload *)
 Theorem json_accepted_means_every_signature_verified :
